@@ -83,7 +83,8 @@ fn utxo(i: usize) -> TransactionUnspentOutput {
 
 // the last configuration asks for one asset in three outputs (10 + 8 + 8 of A against UTxOs holding
 // 20 each): the surplus of one pick covers the next output entirely but not the one after
-const OUTS: [&[(u64, u64, u64)]; 6] = [&[(2_000_000, 0, 0)], &[(2_000_000, 0, 0), (5_000_000, 0, 0)], &[(2_000_000, 20, 0)], &[(3_000_000, 10, 10)], &[(2_500_000, 0, 0), (2_500_000, 0, 0)], &[(1_500_000, 10, 0), (1_500_000, 8, 0), (1_500_000, 8, 0)]];
+// the one before it mixes a pure-ADA output with a token-carrying one (both orders)
+const OUTS: [&[(u64, u64, u64)]; 8] = [&[(2_000_000, 0, 0), (2_000_000, 20, 0)], &[(2_000_000, 0, 10), (2_000_000, 0, 0)], &[(2_000_000, 0, 0)], &[(2_000_000, 0, 0), (5_000_000, 0, 0)], &[(2_000_000, 20, 0)], &[(3_000_000, 10, 10)], &[(2_500_000, 0, 0), (2_500_000, 0, 0)], &[(1_500_000, 10, 0), (1_500_000, 8, 0), (1_500_000, 8, 0)]];
 const IMPLICIT: [u64; 3] = [0, 1_000_000, 20_000_000];
 
 fn strategy(i: usize) -> CoinSelectionStrategyCIP2 {
